@@ -11,8 +11,8 @@ blank-line rule; the groups after the last sibling), `Attach`'s footer rule.
 NOT modelled: the three `hoist…` post-passes of `Attach` (they move groups between slots), the Go maps
 (`cm.SameLine[node] = g` overwrites when the same element is visited twice — the model records the
 assignment sequence; the known finding `comment-next-to-else-dropped` lives there), rendering.
-This model is NOT tied to /repo by a stream of its own: the `fmt` stream's Go-only oracle checks on every
-generated program that each input comment occurs exactly once in the output.
+Tied to /repo by stream `attach` (`harness/cmd/vharness/stream_attach.go`, `Drv/Attach.lean`): same slot
+assignments as the real `attachLevel` (through the verif hook `trivia.VerifAttachLevel`) on generated programs.
 The recursion on children is bounded by `fuel` (depth of the element tree + 1 suffices; with less fuel the
 model leaves the groups unassigned, which does not affect the conservation theorem).
 -/
